@@ -106,6 +106,15 @@ KERNEL size_t K(k_vector_copy)(const int* src, size_t n, size_t wi, int wv, int*
   return y.size();
 }
 
+// the COPY is used as a vector of its own afterwards: m push_backs into the copy-constructed object (its capacity bookkeeping must describe ITS block), then it is observed
+KERNEL size_t K(k_vector_copy_grow)(const int* src, size_t n, const int* more, size_t m, int* out_copy, int* out_src, size_t outcap){
+  utl::vector<int> x; for (size_t i = 0; i < n; i++) x.push_back(src[i]);
+  utl::vector<int> y(x);
+  for (size_t i = 0; i < m; i++) y.push_back(more[i]);
+  for (size_t i = 0; i < y.size() && i < outcap; i++) out_copy[i] = y[i];
+  for (size_t i = 0; i < x.size() && i < outcap; i++) out_src[i] = x[i];
+  return y.size();
+}
 // ---------------------------------------------------------------- utl::array<int,4>
 // op: 0 x[t][i] = v   1 x[t] = x[1-t]   2 x[t] = x[t]   3 { C c(x[1-t]); x[t] = c; }   4 x[t].at(i) = v
 KERNEL void K(k_hist_array)(const unsigned char* ops, const unsigned char* tgt, const size_t* n, const int* v, size_t k, const int* init0, const int* init1, int* out0, int* out1){
